@@ -57,7 +57,7 @@ def make_plan(seed: int, tier: str) -> dict:
         op = {"op": k}
         if k == "personalize":
             op.update(algo=st.choice(PERSO), cohort=st.randint(0, 2), n=st.randint(1, 4), aseed=st.randint(0, 5), n_iter=st.choice([6, 10, 16]),
-                      via_settings=st.bernoulli(0.4), reuse_settings=st.bernoulli(0.5))
+                      via_settings=st.bernoulli(0.4), reuse_settings=st.bernoulli(0.5), annealing=st.bernoulli(0.3))
         elif k == "estimate":
             op.update(cohort=st.randint(0, 2), n=st.randint(1, 3))
         elif k == "simulate":
@@ -169,8 +169,10 @@ def run_plan(plan: dict) -> dict:
             kw = dict(seed=desc["aseed"], progress_bar=False)
             if desc["algo"] != "scipy_minimize":
                 kw["n_iter"] = desc["n_iter"]
+                if desc.get("annealing"):
+                    kw["annealing"] = {"do_annealing": True, "initial_temperature": 5, "n_plateau": 2, "n_iter_frac": 0.5}
             if desc["via_settings"]:
-                key = (desc["algo"], desc["aseed"], desc.get("n_iter")) if desc["reuse_settings"] else None
+                key = (desc["algo"], desc["aseed"], desc.get("n_iter"), bool(desc.get("annealing"))) if desc["reuse_settings"] else None
                 if key is not None and key in settings_pool:
                     settings = settings_pool[key]
                     C["probe.settings_reused"] += 1
